@@ -22,7 +22,7 @@ type c06Case struct {
 }
 
 var c06Faults = []string{"bad_json", "long_json_line", "long_lines_line", "csv_bare_quote", "csv_field_count", "type_assertion", "panic_fn"}
-var c06Stacks = []string{"plain", "distinct", "order_by", "nested_order_by", "group_key", "group_arg", "join_left", "join_right", "left_join", "outer_join", "lookup_join_left", "subquery_from", "subquery_expr", "subquery_expr_multi", "distinct_order", "group_then_order", "where_above", "map_above"}
+var c06Stacks = []string{"join_other_side_empty", "join_other_side_null_keys", "join_other_side_empty_right", "plain", "distinct", "order_by", "nested_order_by", "group_key", "group_arg", "join_left", "join_right", "left_join", "outer_join", "lookup_join_left", "subquery_from", "subquery_expr", "subquery_expr_multi", "distinct_order", "group_then_order", "where_above", "map_above"}
 
 // build returns (files with the fault, files without it, sql with fault, sql control, config).
 func (c c06Case) build() (faulty, clean map[string]string, sql, controlSQL, config string) {
@@ -123,6 +123,13 @@ func (c c06Case) build() (faulty, clean map[string]string, sql, controlSQL, conf
 			return "SELECT s.fid AS id, s.fv AS v, o.w AS w FROM (" + base + ") s JOIN " + otherSrc + " o ON s.fid = o.id"
 		case "join_right":
 			return "SELECT s.fid AS id, s.fv AS v, o.w AS w FROM " + otherSrc + " o JOIN (" + base + ") s ON s.fid = o.id"
+		case "join_other_side_empty":
+			// the other input of the stream join ends at once with nothing to match: the join must still drain the failing side
+			return "SELECT s.fid AS id, s.fv AS v, o.w AS w FROM (" + base + ") s JOIN (SELECT e.id AS eid, e.w AS w FROM " + otherSrc + " e WHERE e.id < e.id) o ON s.fid = o.eid"
+		case "join_other_side_empty_right":
+			return "SELECT s.fid AS id, s.fv AS v, o.w AS w FROM (SELECT e.id AS eid, e.w AS w FROM " + otherSrc + " e WHERE e.id < e.id) o JOIN (" + base + ") s ON s.fid = o.eid"
+		case "join_other_side_null_keys":
+			return "SELECT s.fid AS id, s.fv AS v, o.w AS w FROM (" + base + ") s JOIN (SELECT coalesce(NULL, NULL) AS eid, e.w AS w FROM " + otherSrc + " e) o ON s.fid = o.eid"
 		case "left_join":
 			return "SELECT s.fid AS id, s.fv AS v, o.w AS w FROM (" + base + ") s LEFT JOIN " + otherSrc + " o ON s.fid = o.id ORDER BY id"
 		case "outer_join":
@@ -196,7 +203,7 @@ func c06Prop(c c06Case) ev.Outcome {
 func TestC06(t *testing.T) {
 	r := ev.New("C06", "fault_enumeration",
 		"one necessarily-evaluated failure is injected at a generated row position p (before and after the 100-row schema preview): malformed JSON line, JSON line longer than files.json.max_line_size_bytes, a `lines` line longer than the scanner's 64 KiB token limit, CSV bare quote, CSV wrong field count, a value of another kind inside the preview so that v + 1.0 compiles to a run-time type assertion failing at row p, panic('boom') evaluated on exactly row p; "+
-			"the operator stack above the failing source is one of 18 shapes (DISTINCT, ORDER BY top-level/nested, GROUP BY key/argument, inner/left/outer/lookup join on either side, subquery in FROM, single- and multi-column subquery expression, WHERE/map above, combinations) in each of the five output modes, optimised or not; LIMIT is never above the failure. "+
+			"the operator stack above the failing source is one of 21 shapes (DISTINCT, ORDER BY top-level/nested, GROUP BY key/argument, inner/left/outer/lookup join on either side incl. joins whose other input ends at once (empty, or NULL keys only), subquery in FROM, single- and multi-column subquery expression, WHERE/map above, combinations) in each of the five output modes, optimised or not; LIMIT is never above the failure. "+
 			"oracle: exit status != 0 with an Error: line; control: the same query on the same files without the fault exits 0. grid_exhaustive enumerates fault x stack x {json, batch_table} at two positions completely; random draws the rest. non-trivial: at least one operator above the failing source. distinct=(fault, stack, mode, preview side, optimise)")
 	ev.Enumerate(t, r, "grid_exhaustive", func(yield func(c06Case) bool) {
 		for _, f := range c06Faults {
